@@ -45,6 +45,14 @@ def sources(qs, members):
       if(!std::isfinite((long double)c.x())){ nonfinite++; continue; } if(l2==0) continue; double u=(double)(fabsq(sqrtq(l2)-1)/(dr::Qd)dr::eps<T>()); if(u>worst) worst=u;
       double o=(double)(fabsq((dr::Qd)c.x()*da.x()+(dr::Qd)c.y()*da.y()+(dr::Qd)c.z()*da.z())/(dr::Qd)dr::eps<T>()); if(t%5 && o>orth) orth=o; cnt++; }
     printf("{\"e\":\"DirCross\",\"num\":\"%s\",\"n\":%ld,\"len_ulps\":%ld,\"orth_eps\":%ld,\"nonfinite\":%ld}\n", dr::NumName<T>::c, cnt, (long)std::ceil(worst), (long)std::ceil(orth), nonfinite); }''')
+    # construction without an argument is exactly the zero vector; the Magnitude() / MagnitudeSquared() members of a direction report its length
+    out.append(r'''  { Direction<T> d0; Direction<T> z0 = Direction<T>::Zero(); PlanarDirection<T> p0; PlanarDirection<T> q0 = PlanarDirection<T>::Zero();
+    auto isz3=[](const Direction<T>& d){ return d.x()==0 && d.y()==0 && d.z()==0 && !std::signbit(d.x()) && !std::signbit(d.y()) && !std::signbit(d.z()); }; auto isz2=[](const PlanarDirection<T>& d){ return d.x()==0 && d.y()==0 && !std::signbit(d.x()) && !std::signbit(d.y()); };
+    printf("{\"e\":\"DirZero\",\"num\":\"%s\",\"default3\":%d,\"zero3\":%d,\"default2\":%d,\"zero2\":%d,\"mag3\":%d,\"mag2\":%d}\n", dr::NumName<T>::c, (int)isz3(d0), (int)isz3(z0), (int)isz2(p0), (int)isz2(q0), (int)(d0.Magnitude()==0 && d0.MagnitudeSquared()==0), (int)(p0.Magnitude()==0 && p0.MagnitudeSquared()==0));
+    std::mt19937_64 g(seed+4242); double w=0, w2=0; long cnt=0; for(int t=0;t<n;t++){ T a[3]; int ex=(int)(g()%41)-20; for(int i=0;i<3;i++) a[i]=std::ldexp((T)((double)(g()%2001)/1000.0-1.0), ex); if(a[0]==0&&a[1]==0) a[0]=1;
+      Direction<T> d(a[0],a[1],a[2]); PlanarDirection<T> p(a[0],a[1]); double u=std::max((double)(std::fabs((long double)d.Magnitude()-1)/dr::eps<T>()), (double)(std::fabs((long double)d.MagnitudeSquared()-1)/dr::eps<T>())); if(u>w) w=u;
+      u=std::max((double)(std::fabs((long double)p.Magnitude()-1)/dr::eps<T>()), (double)(std::fabs((long double)p.MagnitudeSquared()-1)/dr::eps<T>())); if(u>w2) w2=u; cnt++; }
+    printf("{\"e\":\"DirMagnitude\",\"num\":\"%s\",\"n\":%ld,\"ulps3\":%ld,\"ulps2\":%ld}\n", dr::NumName<T>::c, cnt, (long)std::ceil(w), (long)std::ceil(w2)); }''')
     for i, q in enumerate(vq3):
         if q in has_dir:
             out.append(f'  dr::quantity<{q}<T>,T,3>("{q}", seed+{1000 + i}, n, [](const T* v){{ return {qgen.mk(q, qs, "v", "0")}; }}, [](const {q}<T>& q){{ return q.Direction(); }});')
@@ -70,7 +78,12 @@ def sources(qs, members):
          ('PlanarDirection,PlanarDirection', 2, 'Angle<T>(PlanarDirection<T>(a[0],a[1]), PlanarDirection<T>(b[0],b[1]))', None),
          ('Vector.Angle(Vector)', 3, 'Vector<T>(a[0],a[1],a[2]).Angle(Vector<T>(b[0],b[1],b[2]))', None),
          ('Direction.Angle(Direction)', 3, 'Direction<T>(a[0],a[1],a[2]).Angle(Direction<T>(b[0],b[1],b[2]))', None),
-         ('PlanarVector.Angle(PlanarVector)', 2, 'PlanarVector<T>(a[0],a[1]).Angle(PlanarVector<T>(b[0],b[1]))', None)]
+         ('PlanarVector.Angle(PlanarVector)', 2, 'PlanarVector<T>(a[0],a[1]).Angle(PlanarVector<T>(b[0],b[1]))', None),
+         ('PlanarDirection.Angle(PlanarDirection)', 2, 'PlanarDirection<T>(a[0],a[1]).Angle(PlanarDirection<T>(b[0],b[1]))', None),
+         ('Direction.Angle(Vector)', 3, 'Direction<T>(a[0],a[1],a[2]).Angle(Vector<T>(b[0],b[1],b[2]))', 'Vector<T>(a[0],a[1],a[2]).Angle(Direction<T>(b[0],b[1],b[2]))'),
+         ('Vector.Angle(Direction)', 3, 'Vector<T>(a[0],a[1],a[2]).Angle(Direction<T>(b[0],b[1],b[2]))', 'Direction<T>(a[0],a[1],a[2]).Angle(Vector<T>(b[0],b[1],b[2]))'),
+         ('PlanarDirection.Angle(PlanarVector)', 2, 'PlanarDirection<T>(a[0],a[1]).Angle(PlanarVector<T>(b[0],b[1]))', 'PlanarVector<T>(a[0],a[1]).Angle(PlanarDirection<T>(b[0],b[1]))'),
+         ('PlanarVector.Angle(PlanarDirection)', 2, 'PlanarVector<T>(a[0],a[1]).Angle(PlanarDirection<T>(b[0],b[1]))', 'PlanarDirection<T>(a[0],a[1]).Angle(PlanarVector<T>(b[0],b[1]))')]
     for q in vq3 + vq2:
         dim = 3 if q in vq3 else 2
         K.append((f'Angle({q},{q})', dim, f'Angle<T>({qgen.mk(q, qs, "a", "0")}, {qgen.mk(q, qs, "b", "0")})', None))
